@@ -2170,10 +2170,21 @@ class SX:
             return [(st, Tv([], 'set' if name == 'set' else 'list') if name != 'dict' else Dv({}))]
         if self.eval_comprehensions and name == 'filter' and len(args) == 2 and isinstance(args[1], Tv):
             if isinstance(args[0], NoneV):
-                ts = [(i, self.truth(i)) for i in args[1].items]
-                if all(isinstance(t, bool) for _, t in ts):
-                    return [(st, Tv([i for i, t in ts if t]))]
-                raise CannotDecide('filter(None, ...) over undecided truth values')
+                cur = [(st, [])]
+                for i in args[1].items:
+                    t = self.truth(i)
+                    nxt = []
+                    for s_, acc in cur:
+                        if isinstance(t, bool):
+                            nxt.append((s_, acc + [i] if t else acc))
+                            continue
+                        a, b = s_.with_guard(t), s_.with_guard(t.negate())
+                        if a is not None:
+                            nxt.append((a, acc + [i]))
+                        if b is not None:
+                            nxt.append((b, acc))
+                    cur = nxt
+                return [(s_, Tv(acc)) for s_, acc in cur]
         if name == 'bool' and len(args) == 1 and self.eval_comprehensions:
             t = self.truth(args[0])
             return [(st, Bv(t) if isinstance(t, bool) else Bsym(t))]
